@@ -1,4 +1,5 @@
 import LapyVerif.Props.C17
+import LapyVerif.Bridge.CurvTria
 /- axiom audit of C17 -/
 #print axioms LapyVerif.Props.C17.argsort3_eq
 #print axioms LapyVerif.Props.C17.argsort3_perm
@@ -26,3 +27,8 @@ import LapyVerif.Props.C17
 #print axioms LapyVerif.Props.C17.stiffAniso_le_iso
 #print axioms LapyVerif.Props.C17.stiffAniso_one_eq_iso
 #print axioms LapyVerif.Props.C17.exp_weight_mem
+#print axioms LapyVerif.Bridge.proj_eq
+#print axioms LapyVerif.Bridge.curv_tria_umin
+#print axioms LapyVerif.Bridge.curv_tria_umax
+#print axioms LapyVerif.Bridge.curv_tria_c
+#print axioms LapyVerif.Bridge.curv_tria_smooth
